@@ -427,11 +427,13 @@ fn honest(rng: &mut Rng, p: u64, single: bool, md5: bool) -> Case {
   let unit = p.clamp(1, 64);
   for i in 0..n {
     let k = rng.below(4);
-    let len = match rng.below(6) {
+    let len = match rng.below(if p >= 100 && p <= (1 << 20) { 8 } else { 6 }) {
       0 => 0,
       1 => (k * unit).saturating_sub(1),
       2 => k * unit,
       3 => k * unit + 1,
+      // files larger than the reader's internal buffer, ending anywhere relative to piece and buffer boundaries
+      6 | 7 => 8193 + rng.below(30_000),
       _ => rng.below(3 * unit + 2),
     } as usize;
     let data = rng.bytes(len);
@@ -495,8 +497,22 @@ pub fn gen_c03(rng: &mut Rng) -> Case {
     6 if !c.single && !c.files.is_empty() => {
       // duplicate path: listed twice, pieces recomputed honestly
       let i = rng.below(c.files.len() as u64) as usize;
-      let f = c.files[i].clone();
-      c.files.push(f);
+      let mut f = c.files[i].clone();
+      // the repeated entry may say something else about the same file: only the first one is true then
+      let differs = rng.chance(1, 2);
+      if differs {
+        match rng.below(3) {
+          0 => f.len += 1 + rng.below(3),
+          1 if f.len > 0 => f.len -= 1,
+          _ => f.md5 = Some(vec![0x5a; 16]),
+        }
+      }
+      // next to the original (consecutive entries) or at the end
+      if rng.chance(1, 2) {
+        c.files.insert(i + 1, f);
+      } else {
+        c.files.push(f);
+      }
       let mut concat = Vec::new();
       for f in &c.files {
         if let Some(Node::File(b)) = c.tree.get(&f.path.join("/")) {
@@ -507,7 +523,7 @@ pub fn gen_c03(rng: &mut Rng) -> Case {
       for blk in concat.chunks(c.p as usize) {
         c.pieces.extend_from_slice(&sha1(blk));
       }
-      label = "duplicate-path".into();
+      label = if differs { "duplicate-path-second-differs".into() } else { "duplicate-path".into() };
     }
     7 => {
       // piece length zero: nothing would be hashed
@@ -848,10 +864,12 @@ fn history(ctx: &Ctx, seed: u64) -> Report {
     rng.shuffle(&mut idx);
     for i in idx.into_iter().take(n) {
       let k = rng.below(3);
-      let len = match rng.below(5) {
+      let len = match rng.below(if p >= 1000 { 7 } else { 5 }) {
         0 => 0,
         1 => k * unit,
         2 => k * unit + 1,
+        // larger than the reader's internal buffer
+        5 | 6 => 8193 + rng.below(30_000),
         _ => rng.below(3 * unit + 2),
       } as usize;
       orig.push((names[i].to_string(), rng.bytes(len)));
